@@ -15,6 +15,7 @@ MODULES = {
     "C14": "harness.c14_actions",
     "C15": "harness.c15_obs",
     "C16": "harness.c16_dist",
+    "C19": "harness.c19_bandits",
 }
 
 TECH = "symbolic execution of the real Python functions on z3-backed proxies (re-execution path exploration); each obligation decided per path by z3 as pc ∧ assumptions ∧ ¬obligation; sat models replayed on the real code"
@@ -81,6 +82,11 @@ CLAIMED = {
         "level_note": NOTE + "; torch.distributions' densities and samplers are the trusted base (abstracted); exp/log/tanh uninterpreted",
         "technique": TECH + "; torch.distributions abstracted by uninterpreted functions (a proof under the abstraction is sound, counterexamples are replayed on the real distributions)",
     },
+    "C19": {
+        "level_text": "bounded symbolic verification of the real NeuralUCB.get_action / NeuralTS.get_action (ONE decision from an ARBITRARY symmetric stored matrix: inductive step) and init_params, with a stub actor whose per-arm backward() deposits symbolic gradient features: for all stored matrices, features, network outputs, gamma, masks (and Thompson samples) at arms<=3, output-layer parameters d<=2(3): the arm returned is legal and maximises the index (UCB: mu + gamma*sqrt(g^T S g); TS: a sample with mean mu and std gamma*sqrt(g^T S g)) among legal arms, the stored matrix afterwards satisfies the inverse-free Sherman-Morrison identity S' + S' v (v^T S) = S for the feature v of the arm RETURNED (<=> S'^-1 = S^-1 + v v^T, i.e. the matrix stays the inverse of lambda*I + sum of outer products), symmetry is preserved; init_params gives lambda*I of the size of the real output layer's parameter count",
+        "level_note": NOTE + "; sqrt uninterpreted (sqrt(x)>=0, sqrt(x)^2=x); that the deposited features are the true gradients (autograd), float32 drift, positive definiteness for d>2 and _reinit_bandit_grads after mutation are outside",
+        "technique": TECH,
+    },
     "C17": {
         "level_text": "bounded symbolic verification of the real PPO.learn / IPPO.learn up to the minibatch loop: for all rewards, values, done flags, bootstrap values, log-probs, gamma, lambda at rollout shapes T<=3(5), envs<=2(3), agents<=2(3), the flattened rows handed to the minibatch loop carry, for every (agent, step, env), that triple's observation, action, old log-prob, old value and the GAE advantage/return defined by the statement's recursion (up to a permutation of rows)",
         "level_note": NOTE,
@@ -97,4 +103,4 @@ NOT_APPLICABLE = {
 
 # designed in DESIGN.md §5 but the check is not built/registered yet (moves to CLAIMED when it lands)
 PENDING = {pid: "solver-based check designed (DESIGN.md §5) but not yet built in this tree; not claimed until it is"
-           for pid in ["C12", "C13", "C19"]}
+           for pid in ["C12", "C13"]}
